@@ -308,6 +308,21 @@ def collective_model(rows, site_frac, matrix, window, cutoff, band=1e-9):
 
 
 # --------------------------------------------------------------------------- multisets of points
+def _match_rows_large(a, b, tol):
+    """multiset comparison for many rows without the n x n matrix: a spatial index (scipy's cKDTree, used for bookkeeping only) gives,
+    for every row of either array, the number of rows of a and of b within tol (max-norm); the two multisets agree when these counts
+    are equal everywhere.  Returns a (non-None) dummy permutation on success."""
+    from scipy.spatial import cKDTree
+
+    ta, tb = cKDTree(a), cKDTree(b)
+    for pts in (a, b):
+        na = ta.query_ball_point(pts, tol, p=np.inf, return_length=True)
+        nb = tb.query_ball_point(pts, tol, p=np.inf, return_length=True)
+        if np.any(na != nb):
+            return None
+    return np.arange(len(a))
+
+
 def match_rows(a, b, tol):
     """Match the rows of a (n, d) one-to-one onto rows of b (n, d) within `tol` (greedy nearest on the distance matrix,
     most constrained rows first).  Returns the index array p with |a[i] - b[p[i]]| <= tol, or None if no matching exists."""
@@ -318,6 +333,8 @@ def match_rows(a, b, tol):
     n = len(a)
     if n == 0:
         return np.zeros(0, dtype=int)
+    if n > 2500:
+        return _match_rows_large(a, b, tol)
     D = np.abs(a[:, None, :] - b[None, :, :]).max(axis=-1)
     ok = D <= tol
     if not ok.any(axis=1).all() or not ok.any(axis=0).all():
